@@ -271,6 +271,9 @@ inline void install_death_hooks(const std::string &dir) {
     inflight().dir = dir;
 #ifdef VH_ASAN
     __sanitizer_set_death_callback(death_cb);
+    // the sanitizer runtime does not intercept abort() / ud2: a library that ends the process itself (sodium_misuse() on a legal call, a
+    // failing assert) must leave the in-flight case behind as well, or the death would be reported as an infrastructure problem
+    for (int s : {SIGABRT, SIGILL}) signal(s, sig_handler);
 #else
     for (int s : {SIGSEGV, SIGBUS, SIGILL, SIGFPE, SIGABRT}) signal(s, sig_handler);
 #endif
